@@ -89,3 +89,19 @@ Proof.
       + right. eapply IHr. exact E. }
   apply G. cbn. discriminate.
 Qed.
+
+(* the feedback variant (an effect that moves the dependency on when a value is installed) adds nothing new: every history
+   with feedback is a history of plain writes and completions, so all the statements above apply to it *)
+Lemma fb_is_plain : forall es s, exists es', fold_left rstep_fb es s = fold_left rstep_fn es' s.
+Proof.
+  induction es as [|e es IH]; intros s; [exists []; reflexivity|]. cbn [fold_left].
+  destruct (IH (rstep_fb s e)) as [es' H]. unfold rstep_fb in *.
+  destruct e as [v|k].
+  - exists (RWrite v :: es'). exact H.
+  - destruct (nth_error (r_fetches s) k) as [[d [|]]|] eqn:E.
+    + destruct (feeds d && negb match r_value s with Some v => Z.eqb v d | None => false end).
+      * exists (RComplete k :: RWrite (d + 1) :: es'). exact H.
+      * exists (RComplete k :: es'). exact H.
+    + exists (RComplete k :: es'). exact H.
+    + exists (RComplete k :: es'). exact H.
+Qed.
